@@ -117,7 +117,7 @@ func init() {
 			}
 		}})
 
-	register(&Rule{ID: "C13.newhistory", Props: []string{"C13"}, Floor: 2,
+	register(&Rule{ID: "C13.newhistory", Props: []string{"C13", "C12"}, Floor: 5,
 		Doc: "a new delegation starts from the validator's current reward history",
 		Run: func(e *Engine, r *RuleRun) {
 			fn := r.Need("keeper.Keeper.upsertDelegationWithNewTokens")
@@ -144,6 +144,24 @@ func init() {
 				okS = v.IsCall("math.LegacyDec.Add") && strings.HasSuffix(v.Args[0].String(), ".Shares") && v.Args[1].IsCall("types.GetDelegationSharesFromTokens")
 			}
 			r.Check(okS, fk, "existing position grows by the new shares", "Shares := Shares.Add(newShares)", "the existing delegation's shares are not increased by exactly the newly computed shares", e.Pos(fn.Pos()))
+			// the constructor stores what it was given
+			if cfn := r.Need("types.NewDelegation"); cfn != nil {
+				cfa := e.FA(cfn)
+				cl := Complits(cfn, "types.Delegation")
+				if len(cl) != 1 {
+					r.Bad(FuncKey(cfn), "constructor stores its arguments", "types.NewDelegation no longer builds the record from one composite literal: cannot decide that the reward history handed in is the one stored", nil, e.Pos(cfn.Pos()))
+				} else {
+					f := complitFields(cfa, cl[0])
+					want := map[string]string{"RewardHistory": "$rewardHistory", "Shares": "$shares", "Denom": "$denom"}
+					for name, w := range want {
+						got := "<unset>"
+						if t, ok := f[name]; ok {
+							got = t.String()
+						}
+						r.Check(got == w, FuncKey(cfn), "constructor stores its arguments: "+name, name+" := "+w, "types.NewDelegation stores "+got+" as "+name+" instead of the argument "+w+": a new position would not start from the full reward history (or share amount) its caller computed, e.g. legacy reward indices missing from the record count as zero and are paid out again", e.Pos(cfn.Pos()))
+					}
+				}
+			}
 		}})
 
 	register(&Rule{ID: "C13.idempotent", Props: []string{"C13", "C12", "C05"}, Floor: 7,
